@@ -700,3 +700,139 @@ func init() {
 		Doc: "concatenation layout: where a function fills one destination by successive copy() calls, each copy starts at the summed lengths of the sources copied before it (list, tuple and bytes concatenation)",
 		Run: runC13R5})
 }
+
+// ---- C13.R10: conversions of slice bounds and subscripts decide ints beyond the machine word themselves ----
+//
+// py.Index answers a machine-word Int and raises OverflowError for anything larger. A slice bound of
+// any magnitude is legal and is clipped (x[:2**70] is x[:]), and a subscript beyond the word raises
+// IndexError, not OverflowError; so the function converting them has to look at *BigInt before it
+// calls Index.
+func runC13R10(c *Ctx, r *Rep) {
+	p := c.MustPkg("py")
+	info := p.TypesInfo
+	bigT := p.Types.Scope().Lookup("BigInt")
+	if bigT == nil {
+		r.undecided("bigbound|py.BigInt", token.NoPos, "type not found")
+		return
+	}
+	mentionsBig := func(fd *ast.FuncDecl) bool {
+		found := false
+		ast.Inspect(fd.Body, func(n ast.Node) bool {
+			var te ast.Expr
+			switch x := n.(type) {
+			case *ast.TypeAssertExpr:
+				te = x.Type
+			case *ast.CaseClause:
+				for _, e := range x.List {
+					if tv, ok := info.Types[e]; ok && tv.IsType() {
+						if pt, ok := tv.Type.(*types.Pointer); ok {
+							if nt, ok := pt.Elem().(*types.Named); ok && nt.Obj() == bigT {
+								found = true
+							}
+						}
+					}
+				}
+			}
+			if te != nil {
+				if tv, ok := info.Types[te]; ok {
+					if pt, ok := tv.Type.(*types.Pointer); ok {
+						if nt, ok := pt.Elem().(*types.Named); ok && nt.Obj() == bigT {
+							found = true
+						}
+					}
+				}
+			}
+			return !found
+		})
+		return found
+	}
+	var decides func(fn *types.Func, depth int) bool
+	decides = func(fn *types.Func, depth int) bool {
+		fd := c.Decl(fn)
+		if fd == nil || fd.Body == nil {
+			return false
+		}
+		if mentionsBig(fd) {
+			return true
+		}
+		if depth == 0 {
+			return false
+		}
+		// a wrapper: the first same-package plain function it hands the operand to
+		ok := false
+		ast.Inspect(fd.Body, func(n ast.Node) bool {
+			call, isCall := n.(*ast.CallExpr)
+			if !isCall || ok {
+				return !ok
+			}
+			cal := Callee(info, call)
+			if cal == nil || cal.Pkg() != p.Types || cal.Name() == "Index" {
+				return true
+			}
+			if sig, _ := cal.Type().(*types.Signature); sig != nil && sig.Recv() == nil && decides(cal, depth-1) {
+				ok = true
+			}
+			return !ok
+		})
+		return ok
+	}
+	// 1. the three bounds of GetIndices
+	gi := c.MethodDecl("py", "Slice", "GetIndices")
+	if gi == nil {
+		r.undecided("bigbound|(*py.Slice).GetIndices", token.NoPos, "method not found")
+		return
+	}
+	r.analysed("(*py.Slice).GetIndices")
+	recv := ""
+	if gi.Recv != nil && len(gi.Recv.List) == 1 && len(gi.Recv.List[0].Names) == 1 {
+		recv = gi.Recv.List[0].Names[0].Name
+	}
+	seen := map[string]bool{}
+	ast.Inspect(gi.Body, func(n ast.Node) bool {
+		call, ok := n.(*ast.CallExpr)
+		if !ok || len(call.Args) < 1 {
+			return true
+		}
+		sel, ok := unparen(call.Args[0]).(*ast.SelectorExpr)
+		if !ok {
+			return true
+		}
+		if id, ok := sel.X.(*ast.Ident); !ok || id.Name != recv {
+			return true
+		}
+		f := sel.Sel.Name
+		if f != "Start" && f != "Stop" && f != "Step" {
+			return true
+		}
+		cal := Callee(info, call)
+		if cal == nil || cal.Pkg() != p.Types {
+			return true
+		}
+		seen[f] = true
+		r.check(decides(cal, 1), "bigbound|(*py.Slice).GetIndices|"+f, call.Pos(),
+			fmt.Sprintf("%s is converted by %s, which decides *BigInt operands itself before going through Index", f, cal.Name()),
+			fmt.Sprintf("the slice bound %s is converted by %s, which hands every operand to Index: Index answers a machine Int and raises OverflowError for an int beyond it, so x[:2**70] raises instead of being clipped to the sequence", f, cal.Name()))
+		return true
+	})
+	for _, f := range []string{"Start", "Stop", "Step"} {
+		if !seen[f] {
+			r.undecided("bigbound|(*py.Slice).GetIndices|"+f, gi.Pos(), "no conversion call on the receiver's %s found; confirm how the bound is converted and update the rule", f)
+		}
+	}
+	// 2. the subscript conversion
+	ic := c.Func("py", "IndexIntCheck")
+	if ic == nil {
+		r.undecided("bigbound|py.IndexIntCheck", token.NoPos, "function not found")
+		return
+	}
+	r.analysed("py.IndexIntCheck")
+	r.check(decides(ic, 1), "bigbound|py.IndexIntCheck", c.Decl(ic).Pos(),
+		"the subscript conversion decides *BigInt operands itself (IndexError) before going through Index",
+		"IndexIntCheck hands every operand to Index: for an int beyond the machine word the subscript raises OverflowError where the sequence model raises IndexError (cannot fit 'int' into an index-sized integer)")
+}
+
+func init() {
+	register(&Rule{ID: "C13.R10", Prop: "C13", Floor: 4,
+		Doc: "ints beyond the machine word: the functions converting the three bounds in Slice.GetIndices and the subscript in IndexIntCheck test for *BigInt themselves before calling Index (which answers a machine Int and raises OverflowError): far out-of-range slice bounds are clipped, a far out-of-range subscript is an IndexError",
+		Run: runC13R10})
+}
